@@ -50,6 +50,10 @@ def _cases(rng, quick, gr):
     for m in ["0.5", "1.0", "x", "1j", "2 * 1j", "1 / 2", "2 ** -1", "n / 2", "sqrt(4)", "pi", "s", "A[0] / 1"]:
         for tmpl in ["Op(1) | {F}", "Op | [0, {F}]", "MeasureX | ({F}, 1)", "for int i in 0:2\n    Op | [i, {F}]"]:
             yield {"tag": "mode-not-int", "text": HDR + DECLS + 'str s = "a"\n' + tmpl.replace("{F}", m) + "\n"}
+    # 3a. a loop body whose mode is an integer in the first iteration(s) and not in a later one
+    for hdr, body in [("0:3", "Vac | 2 ** (1 - i)"), ("0:3", "Op | [0, 2 ** (2 - i) + 4]"), ("0:3", "MeasureX | (i, 4 ** (1 - i) + 5)"), ("[0, 1, 3]", "Op(1) | 2 ** (1 - i)"),
+                      ("(1, 0, 2)", "Op(i) | [3, 2 ** (1 - i)]"), ("0:4", "Vac | i\n    Op(2) | 8 ** (2 - i)")]:
+        yield {"tag": "mode-not-int-in-later-iteration", "text": HDR + DECLS + "for int i in %s\n    %s\nVac | 7\n" % (hdr, body)}
     # 3b. ... also when the value equals a mode number the program has already acted on
     for m in ["1.0", "2 / 2", "fm", "1 + 0j", "F1[0]", "1e0"]:
         for pre in ["Vac | 1\n", "Op(1) | [0, 1]\n", "for int i in 0:2\n    Vac | i\n"]:
